@@ -804,6 +804,20 @@ class World(object):
         r.rightNow = max(r.rightNow, target)
         return out
 
+    def bounce_timer(self, step=None):
+        ev = self.begin("restart", step=step)
+        ev.notes["bounce"] = True
+        try:
+            self.timer.stopService()
+            self.timer.startService()
+        except Exception as e:
+            ev.errors.append({"kind": "internal_error", "type": type(e).__name__, "text": str(e)[:300],
+                              "where": repo_frame(sys.exc_info()[2]), "conn": None})
+        ev.notes["sweep"] = True
+        self.sweep_alive = self._sweep_pending()
+        self.end()
+        return ev
+
     def next_sweep_in(self):
         for c in self.reactor.getDelayedCalls():
             if isinstance(c.func, LoopingCall):
